@@ -3,7 +3,7 @@ policy; never ends; merge keeps each input's order (spec/Reconnect.tla, spec/Mer
 import json
 import vlib
 
-MODULE = ["Reconnect", "WireStream", "Merge"]
+MODULE = ["Reconnect", "WireStream", "Merge", "AccountLink"]
 META = {
     "spec": MODULE,
     "level_text": "TLC decides the property exhaustively on the bounded TLA+ models spec/Reconnect.tla (all scripts of "
@@ -261,6 +261,11 @@ def check(ctx):
     out = ctx.path("trace_merge_random.ndjson")
     ctx.harness("c12", "merge-random", "--seed", ctx.seed, "--n", 300 if q else 3000, "--out", out)
     validate_merge(ctx, out, "merge_random")
+    # ---- the account link of an exchange (ExecutionManager::init: reconnecting, indexed account stream merged with
+    #      the manager's responses): spec/AccountLink.tla model-checked here, bound to the real code in both directions
+    #      (props/acctlink.py); C12 answers for order, loss, duplication, notices, back-off, never-ends
+    from props import acctlink
+    acctlink.run(ctx, {"C12"}, mc=True)
     if not ctx.violations:      # (with violations a missing arm is a symptom of the defect, not vacuity)
         require_arms(ctx)
     return ctx.finish(extra={"trace_arm_counts": ctx.arms})
@@ -268,6 +273,9 @@ def check(ctx):
 
 def replay(ctx, rp):
     ctx.arms = {}
+    if rp.get("kind") == "acctlink":
+        from props import acctlink
+        return acctlink.replay(ctx, rp, {"C12"})
     ctx.build("c12")
     scn = ctx.path("replay_scn.ndjson")
     if rp.get("kind") == "merge":
